@@ -18,7 +18,9 @@ import (
 	mrand "math/rand"
 	"net"
 	"os"
+	"runtime/debug"
 	"strings"
+	"sync"
 	"time"
 
 	hclog "github.com/hashicorp/go-hclog"
@@ -134,6 +136,7 @@ func abbreviate(in []string) []string {
 }
 
 type run struct {
+	gcHeld bool
 	srv  *hs.Server
 	cfg  Cfg
 	rng  *mrand.Rand
@@ -291,6 +294,12 @@ func Run(bh Behaviour, seed int64) ([]Line, error) {
 	srv.W.Rec.NidEmptyOK = bh.Cfg.Nide
 	srv.W.Rec.NativeNid = bh.Cfg.SO
 	r := &run{srv: srv, cfg: bh.Cfg, prev: map[string]*prev{}, ngen: map[string]int{}, sent: map[string]sentHello{}, rng: mrand.New(mrand.NewSource(world.Uint64Seed(seed, "hsd/"+bh.Id)))}
+	defer func() {
+		if r.gcHeld {
+			r.gcHeld = false
+			gcHoldOff()
+		}
+	}()
 	cfgMap := map[string]any{"nidl": bh.Cfg.Nidl, "base": bh.Cfg.Base}
 	var lines []Line
 	for i, op := range bh.Ops {
@@ -532,6 +541,9 @@ func (r *run) step(op map[string]any, ln *Line) {
 	case "Connect":
 		r.connect(op, ln)
 	case "Dial":
+		if r.gcHeld {
+			defer func() { r.gcHeld = false; gcHoldOff() }()
+		}
 		r.dial(op, ln)
 	case "Malformed":
 		r.malformed(op, ln)
@@ -1106,9 +1118,42 @@ func (r *run) malformedProtos(cls, pfx string) []string {
 	return []string{p}
 }
 
+// gcHold: between a hostile handshake of class authStateGarbage and the next honest dial the collector is held off, so
+// that whatever the listener may keep for re-use between handshakes is still there when the honest node arrives (a
+// busy harness process collects far more often than a server does); counted, because behaviours run side by side
+var gcHold struct {
+	mu  sync.Mutex
+	n   int
+	old int
+}
+
+func gcHoldOn() {
+	gcHold.mu.Lock()
+	if gcHold.n == 0 {
+		gcHold.old = debug.SetGCPercent(-1)
+	}
+	gcHold.n++
+	gcHold.mu.Unlock()
+}
+
+func gcHoldOff() {
+	gcHold.mu.Lock()
+	if gcHold.n > 0 {
+		gcHold.n--
+		if gcHold.n == 0 {
+			debug.SetGCPercent(gcHold.old)
+		}
+	}
+	gcHold.mu.Unlock()
+}
+
 func (r *run) malformed(op map[string]any, ln *Line) {
 	srv := r.srv
 	cls, pfx := s(op, "cls"), s(op, "pfx")
+	if cls == "authStateGarbage" && !r.gcHeld {
+		r.gcHeld = true
+		gcHoldOn()
+	}
 	network := "tcp"
 	if strings.HasPrefix(srv.Addr, "/") {
 		network = "unix"
